@@ -22,6 +22,10 @@ probe method, the standard methods and the lock handler:
   duplicate-execution a call is executed twice
   phantom-execution   something is executed that was never called
   second-thread       more than one thread executes requests of the object
+  execution-outside-worker  a method body of the object runs outside the worker's handling of that very request
+  live-object-handed-out    what a caller holds as call target (proxy from make_*/get_*/make_proxy, `with p as x`, an RPC
+                            return value) is not a proxy / is the live object
+  executed-after-removal, executed-although-error-reply   (object removal)
 """
 from __future__ import annotations
 
@@ -50,18 +54,20 @@ def _log(*ev) -> None:
         s.log(*ev)
 
 
-def probe_class():
-    """The probe RPC object (defined lazily: qmi must be imported after core.ensure_repo_on_path())."""
+def probe_classes():
+    """The probe RPC objects (defined lazily: qmi must be imported after core.ensure_repo_on_path()): a plain
+    `QMI_RpcObject` and a `QMI_Instrument` (whose `__enter__` returns `self`), with the same instrumented methods."""
     global _PROBE
     if _PROBE is not None:
         return _PROBE
     from qmi.core.rpc import QMI_RpcObject, rpc_method
+    from qmi.core.instrument import QMI_Instrument
 
-    class Probe(QMI_RpcObject):
-        def __init__(self, context, name, oid):
-            super().__init__(context, name)
+    class _ProbeMethods:
+        def _probe_init(self, oid):
             self._oid = oid
             self._inside = 0
+            RUN.live[oid] = self
 
         @rpc_method
         def hit(self, c, via, seq):
@@ -74,8 +80,24 @@ def probe_class():
             _log("exit", me, self._oid, c, via, seq, depth)
             return mark
 
-    _PROBE = Probe
-    return Probe
+        @rpc_method
+        def peer(self):
+            """hand out a proxy for this object (a proxy as an RPC return value)"""
+            _log("probe-exec", _me(), self._oid, "peer")
+            return self._context.make_proxy(self.rpc_object_descriptor)
+
+    class Probe(_ProbeMethods, QMI_RpcObject):
+        def __init__(self, context, name, oid):
+            QMI_RpcObject.__init__(self, context, name)
+            self._probe_init(oid)
+
+    class ProbeInstr(_ProbeMethods, QMI_Instrument):
+        def __init__(self, context, name, oid):
+            QMI_Instrument.__init__(self, context, name)
+            self._probe_init(oid)
+
+    _PROBE = {"obj": Probe, "instr": ProbeInstr, "traced": [_ProbeMethods.hit, _ProbeMethods.peer]}
+    return _PROBE
 
 
 # ---------------------------------------------------------------------------
@@ -106,6 +128,7 @@ class _RunState:
         self.rid2key = {}    # request_id -> (caller, object, issue number)
         self.intent = {}     # thread ident -> key of the call the scripted caller is about to make
         self.pending = {}    # thread ident -> key issued, request message not yet seen
+        self.live = {}       # object number -> the live RPC object instance (never to be seen by a caller)
 
 
 RUN = _RunState()
@@ -475,7 +498,7 @@ def taps():
 # scenarios
 # ---------------------------------------------------------------------------
 
-CALL_KINDS = ("b", "n", "t", "g", "gn", "s", "sn", "q", "L", "U", "F")      # everything that is a request to the object
+CALL_KINDS = ("b", "n", "t", "g", "gn", "s", "sn", "q", "L", "U", "F", "P", "E", "X")      # everything that is a request to the object
 NONBLOCKING = ("n", "gn", "sn")
 
 
@@ -496,6 +519,7 @@ def gen_scenario(rng, big: bool = False) -> dict:
     K = rng.choice([1, 2, 2, 3, 3])
     n_obj = rng.choice([1, 1, 2, 2])
     homes = [0] + [rng.randrange(K) for _ in range(n_obj - 1)]
+    objtypes = [rng.choice(["obj", "obj", "instr"]) for _ in range(n_obj)]
     n_call = rng.choice([1, 2, 2, 3, 3, 4, 5, 6])
     owner = {o: (rng.randrange(n_call) if rng.random() < 0.6 else None) for o in range(n_obj)}
     callers = []
@@ -525,7 +549,18 @@ def gen_scenario(rng, big: bool = False) -> dict:
         for _ in range(rng.randint(1, 6 if big else 4)):
             o = pick_obj()
             r = rng.random()
-            if r < 0.20:
+            if r < 0.10:                        # obtain the call target in another way, then keep calling
+                if objtypes[o] == "instr" and rng.random() < 0.6:
+                    prog.append(mk("E", o))
+                    for _ in range(rng.randint(1, 3)):
+                        prog.append(mk(nb_kind() if rng.random() < 0.6 else "b", o))
+                    if rng.random() < 0.7:
+                        prog.append(mk("X", o))
+                else:
+                    prog.append(mk("P", o))
+                    prog.append(mk(nb_kind(), o))
+                nfut += sum(1 for q in prog if q[0] in NONBLOCKING) - nfut
+            elif r < 0.20:
                 prog.append(mk(rng.choice(["b", "b", "g", "s", "t"]), o))
             elif r < 0.40:
                 prog.append(mk(nb_kind(), o)); nfut += 1
@@ -548,13 +583,13 @@ def gen_scenario(rng, big: bool = False) -> dict:
             else:
                 prog.append(mk("b", o))
         prog = prog[:12]
-        callers.append({"ctx": k, "prog": prog})
+        callers.append({"ctx": k, "prog": prog, "acq": rng.choice(["desc", "desc", "made", "byname"])})
     removals = []
     if rng.random() < 0.25:
         for o in range(n_obj):
             if rng.random() < 0.7:
                 removals.append([o, rng.choice([0, 5, 20, 60, 150, 400])])
-    return sanitize({"contexts": K, "objects": homes, "callers": callers, "removals": removals,
+    return sanitize({"contexts": K, "objects": homes, "objtypes": objtypes, "callers": callers, "removals": removals,
                      "share": rng.random() < 0.25, "eager": rng.choice([0.0, 0.0, 0.3])})
 
 
@@ -563,11 +598,18 @@ def sanitize(scn) -> dict:
     locks it may use L/U/F, L only while not holding, U/F only while holding (others are dropped)."""
     owner = {}
     out = []
+    homes = scn["objects"]
+    objtypes = list(scn.get("objtypes") or ["obj"] * len(homes))
     for ci, cal in enumerate(scn["callers"]):
         held = collections.defaultdict(bool)
         prog = []
         for op in cal["prog"]:
             kind, o = op[0], op[1]
+            if kind in ("E", "X") and objtypes[o] != "instr":
+                continue            # only instruments implement the context-manager protocol
+            if kind == "P" and op_via(cal, op) != homes[o]:
+                op = ["g"] + list(op[1:])          # a proxy cannot travel over the wire: plain call instead
+                kind = "g"
             if kind in ("L", "U", "F"):
                 if owner.setdefault(o, ci) != ci:
                     continue
@@ -576,9 +618,13 @@ def sanitize(scn) -> dict:
                 held[o] = (kind == "L")
                 op = op[:2]
             prog.append(list(op))
-        out.append({"ctx": cal["ctx"], "prog": prog})
+        out.append({"ctx": cal["ctx"], "prog": prog, "acq": cal.get("acq", "desc")})
     locks = any(op[0] in ("L", "U", "F") for c in out for op in c["prog"])
-    return {"contexts": scn["contexts"], "objects": list(scn["objects"]), "callers": out,
+    if locks:
+        for c in out:
+            if c["acq"] == "made":
+                c["acq"] = "byname"           # the proxy returned by make_* is one object: its lock token would be shared
+    return {"contexts": scn["contexts"], "objects": list(scn["objects"]), "objtypes": objtypes, "callers": out,
             "removals": [list(r) for r in scn.get("removals", [])],
             "share": bool(scn.get("share")) and not locks,           # callers of one context share one proxy per object
             "eager": float(scn.get("eager", 0.0))}                   # probability that a pending timed wait fires early
@@ -595,12 +641,17 @@ def make_body(scn):
     removed_objs = {r[0] for r in scn.get("removals", [])}
 
     def body(w):
-        Probe = probe_class()
+        import qmi.core.rpc as R
+        PC = probe_classes()
+        objtypes = scn.get("objtypes") or ["obj"] * len(homes)
         servers = set(homes)
         ctxs = [w.context(f"c{k}", server=(k in servers)) for k in range(K)]
         own_proxy = {}
         for o, h in enumerate(homes):
-            own_proxy[o] = ctxs[h].make_rpc_object(f"{PROBE_PREFIX}{o}", Probe, o)
+            if objtypes[o] == "instr":
+                own_proxy[o] = ctxs[h].make_instrument(f"{PROBE_PREFIX}{o}", PC["instr"], o)
+            else:
+                own_proxy[o] = ctxs[h].make_rpc_object(f"{PROBE_PREFIX}{o}", PC["obj"], o)
         need = sorted({(op_via(c, op), op[1]) for c in scn["callers"] for op in c["prog"] if op[0] in CALL_KINDS})
         connected = set()
         desc = {}
@@ -615,20 +666,45 @@ def make_body(scn):
         n_calls = [0]
         shared = {(k, o): ctxs[k].make_proxy(desc[(k, o)]) for (k, o) in need} if scn.get("share") else None
 
+        def note_target(ci, how, k, o, x):
+            """what a caller holds as its call target must be a proxy, never the live object"""
+            _log("target", ci, how, k, o, isinstance(x, (R.QMI_RpcProxy, R.QMI_RpcNonBlockingProxy)), x is RUN.live.get(o))
+
+        def acquire(ci, cal, k, o):
+            """the ways the API offers to get hold of an object (done by the scenario's main thread during set-up)"""
+            how = cal.get("acq", "desc")
+            name = f"c{homes[o]}.{PROBE_PREFIX}{o}"
+            if how == "made" and k == homes[o]:
+                x = own_proxy[o]                                   # returned by make_rpc_object / make_instrument
+            elif how in ("made", "byname"):
+                how = "byname"
+                x = ctxs[k].get_instrument(name) if objtypes[o] == "instr" else ctxs[k].get_rpc_object_by_name(name)
+            else:
+                how = "desc"
+                x = ctxs[k].make_proxy(desc[(k, o)])
+            note_target(ci, how, k, o, x)
+            return x
+
+        targets = {ci: {(k, o): acquire(ci, cal, k, o)
+                        for (k, o) in sorted({(op_via(cal, op), op[1]) for op in cal["prog"] if op[0] in CALL_KINDS})}
+                   for ci, cal in enumerate(scn["callers"])} if shared is None else None
+
         def caller_fn(ci, cal):
-            # one proxy per (caller thread, proxy context, object): lock tokens are per proxy (unless the scenario shares them)
-            px = shared if shared is not None else {
-                (k, o): ctxs[k].make_proxy(desc[(k, o)])
-                for (k, o) in {(op_via(cal, op), op[1]) for op in cal["prog"] if op[0] in CALL_KINDS}}
+            # one target per (caller thread, proxy context, object): lock tokens are per proxy (unless the scenario shares them)
+            px = dict(shared) if shared is not None else targets[ci]
 
             def classify(e, o):
                 """an exception a scripted call may legitimately get: refused by the lock, or the object is being removed"""
                 if "locked" in str(e):
                     return "locked"
+                if type(e).__name__ == "QMI_MessageDeliveryException" and "pickle" in str(e).lower():
+                    return "reply-not-serialisable"    # e.g. QMI_Instrument.__enter__ returns `self`: cannot travel to a peer
                 if type(e).__name__ == "QMI_MessageDeliveryException" and o in removed_objs:
                     return "undelivered"
                 if type(e).__name__ == "QMI_RpcTimeoutException":
                     return "timeout"
+                if type(e).__name__ == "QMI_InvalidOperationException":
+                    return "instrument-state"          # open() of an open / close() of a closed instrument
                 return None
 
             def check(kind, k, o, seq, r):
@@ -653,11 +729,15 @@ def make_body(scn):
                         if not check(kind, k, o, seq, r):
                             bad.append((kind, ci, k, o, seq, repr(r)))
                         _log("result", ci, (ci, k, o, seq), "ok")
+                        if kind in ("P", "E"):         # from now on the caller uses what it was handed
+                            note_target(ci, {"P": "rpc-return-value", "E": "with-as"}[kind], k, o, r)
+                            px[(k, o)] = r
                     except D.SchedAbort:
                         raise
                     except Exception as e:  # noqa
                         c = classify(e, o)
-                        if c is None or (c == "timeout" and kind != "t"):
+                        if c is None or (c == "timeout" and kind != "t") or (c == "instrument-state" and kind not in "EX") \
+                                or (c == "reply-not-serialisable" and kind != "E"):
                             bad.append((kind, ci, k, o, seq, f"{type(e).__name__}: {e}"))
                         _log("result", ci, (ci, k, o, seq), c or "error")
 
@@ -680,7 +760,7 @@ def make_body(scn):
                     _log("call", ci, k, o, seq, kind, gseq)
                     RUN.intent[me] = (ci, k, o, seq)
                     p = px[(k, o)]
-                    if kind in NONBLOCKING:
+                    if kind in NONBLOCKING and hasattr(p, "rpc_nonblocking"):
                         try:
                             nb = p.rpc_nonblocking
                             fut = (nb.hit(ci, k, seq) if kind == "n" else nb.get_name() if kind == "gn" else nb.get_signals())
@@ -690,8 +770,14 @@ def make_body(scn):
                         except Exception as e:  # noqa
                             bad.append((kind, ci, k, o, seq, f"{type(e).__name__}: {e}"))
                         continue
-                    fn = {"b": lambda: p.hit(ci, k, seq), "t": lambda: p.hit(ci, k, seq, rpc_timeout=0.001), "g": p.get_name, "s": p.get_signals, "q": p.is_locked,
-                          "L": p.lock, "U": p.unlock, "F": p.force_unlock}[kind]
+                    fn = {"b": lambda: p.hit(ci, k, seq), "n": lambda: p.hit(ci, k, seq),
+                          "t": lambda: p.hit(ci, k, seq, rpc_timeout=0.001),
+                          "g": lambda: p.get_name(), "gn": lambda: p.get_name(), "s": lambda: p.get_signals(),
+                          "sn": lambda: p.get_signals(), "q": lambda: p.is_locked(),
+                          "L": lambda: p.lock(), "U": lambda: p.unlock(), "F": lambda: p.force_unlock(),
+                          "P": lambda: p.peer(),
+                          "E": lambda: type(p).__enter__(p),                      # what `with p as x:` binds x to
+                          "X": lambda: type(p).__exit__(p, None, None, None)}[kind]
                     outcome(kind, k, o, seq, fn)
                 return bad
             return run
@@ -732,9 +818,9 @@ def run_impl(seed, scn, policy="weighted", change_points=None, extra_trace=False
     import qmi.core.rpc as R
     global RUN
     RUN = _RunState()
-    Probe = probe_class()
+    PC = probe_classes()
     # line-level yield points inside everything that executes "on the object"
-    tf = [Probe.hit, R.QMI_RpcObject.get_name, R.QMI_RpcObject.get_signals, R._RpcThread._handle_lock_rpc_request]
+    tf = PC["traced"] + [R.QMI_RpcObject.get_name, R.QMI_RpcObject.get_signals, R._RpcThread._handle_lock_rpc_request]
     if extra_trace:
         tf += [R._RpcThread.push_rpc_request, R.RpcObjectManager.handle_message]
     with taps():    # (tf was collected before the taps replaced the class attributes: the original code objects)
@@ -894,6 +980,23 @@ def oracle(scn, events):
     for i, ev in enumerate(events):
         if ev[0] == "call":
             called[(ev[1], ev[2], ev[3], ev[4])] = ev[6]
+        elif ev[0] == "target":
+            _, ci, how, k, o, is_proxy, is_live = ev
+            if is_live or not is_proxy:
+                return ("live-object-handed-out", route(k, o), how,
+                        f"event {i}: caller {ci} obtained its call target for object {o} by '{how}' and holds "
+                        f"{'the live RPC object itself' if is_live else 'something that is not a proxy'}")
+        elif ev[0] in ("enter", "probe-exec"):
+            # a method body of the object runs: it must be inside a handler execution of that object, same thread
+            th, o = ev[1], ev[2]
+            cur = inside[o][-1] if inside[o] else None
+            ok = cur is not None and cur[1] == th and (ev[0] == "probe-exec" or cur[0] == (ev[3], ev[4], o, ev[5]))
+            if not ok:
+                what = "hit" if ev[0] == "enter" else ev[3]
+                k = ev[4] if ev[0] == "enter" else homes[o]
+                return ("execution-outside-worker", route(k, o), what,
+                        f"event {i}: {what}() of object {o} runs in thread {th} outside the worker's handling of that "
+                        f"request (worker is handling: {cur})")
         elif ev[0] == "removed":
             removed.add(ev[1])
         elif ev[0] == "result":
@@ -1021,6 +1124,16 @@ FIXED_SCENARIOS_RAW = [
     {"contexts": 2, "objects": [0], "share": True,
      "callers": [{"ctx": 1, "prog": [["n", 0], ["n", 0], ["b", 0]]}, {"ctx": 1, "prog": [["n", 0], ["gn", 0], ["b", 0]]},
                  {"ctx": 1, "prog": [["b", 0], ["q", 0], ["b", 0]]}]},
+    # the call target obtained in every way the API offers: `with proxy as x` on an instrument (local and peer), a proxy
+    # returned by an RPC, the proxy returned by make_instrument, get_instrument / get_rpc_object_by_name
+    {"contexts": 2, "objects": [0], "objtypes": ["instr"],
+     "callers": [{"ctx": 0, "acq": "made", "prog": [["E", 0], ["n", 0], ["n", 0], ["b", 0], ["X", 0], ["b", 0]]},
+                 {"ctx": 0, "acq": "byname", "prog": [["n", 0], ["n", 0], ["b", 0], ["n", 0]]},
+                 {"ctx": 1, "acq": "byname", "prog": [["E", 0], ["n", 0], ["b", 0], ["X", 0]]}]},
+    {"contexts": 2, "objects": [0, 0], "objtypes": ["obj", "instr"],
+     "callers": [{"ctx": 0, "acq": "desc", "prog": [["P", 0], ["n", 0], ["n", 0], ["P", 1], ["n", 1], ["b", 0], ["b", 1]]},
+                 {"ctx": 0, "acq": "made", "prog": [["n", 1], ["E", 1], ["n", 1], ["n", 0], ["b", 1]]},
+                 {"ctx": 1, "acq": "byname", "prog": [["n", 0], ["n", 1], ["b", 0]]}]},
     # inherited standard methods interleaved with the probe's own method
     {"contexts": 2, "objects": [0], "callers": [{"ctx": 0, "prog": [["n", 0], ["gn", 0], ["n", 0], ["g", 0]]},
                                                  {"ctx": 1, "prog": [["n", 0], ["sn", 0], ["gn", 0], ["s", 0]]},
